@@ -18,6 +18,11 @@ class Mon(Monitor):
                 if r is None:
                     out.append(V('order', 'pubrel-for-unknown-id', 'PUBREL(%r) written, no QoS 2 request carries that id' % p['msgId']))
                     continue
+                if not w.session_alive(r):
+                    out.append(V('order', 'pubrel-after-session-discard/on-%s' % ev[0],
+                                 'PUBREL(%d) written on connection %d for request %d of a session that was discarded' % (
+                                     p['msgId'], ci, r.idx)))
+                    continue
                 first_tx = r.tx[0][0] if r.tx else None
                 if first_tx is None or not any(a[1] == 'PUBREC' and a[0] >= first_tx for a in r.acks):
                     out.append(V('order', 'pubrel-before-pubrec/on-%s' % ev[0],
@@ -89,6 +94,9 @@ def scenarios(ctx):
                    connects=[(False, 0, 3)], reconnects=[(False, 0, 3)], pub_qos=(2,),
                    budgets=dict(pub=1 if q else 2, ack=2 if q else 4, dack=1, tick=3, lose=2, rebuild=2, connect=2,
                                 connack=2)))
+    out.append(Std('pub-q2-clean-then-persist', profile='pub', init=(('connect', 0, True, 0, 4), ('connack', 0, 0, False)),
+                   connects=[(True, 0, 4)], reconnects=[(False, 0, 4), (True, 0, 4)], pub_qos=(2,),
+                   budgets=dict(pub=2, ack=2 if q else 3, tick=1, lose=2, rebuild=2, connect=2, connack=2)))
     out.append(Wrap('pub-q2-wrap', profile='pub', init=CONNECTED_P + (('setwin', 0, 2),), connects=[(False, 0, 4)],
                     reconnects=[(False, 0, 4)], pub_qos=(1, 2),
                     budgets=dict(pub=3, ack=2 if q else 3, setid=1, tick=1, lose=0 if q else 1, rebuild=1, connect=1, connack=1)))
